@@ -2,7 +2,7 @@
     Only property theorems here, each closed by [exact]/[vm_compute] of a lemma from Proofs15*.v.
     Inventory: Gen/GenScannerFields.v (regenerated from /repo on every run); classification: Classify15.v. *)
 From Coq Require Import String List NArith Bool.
-From XV Require Import Gen.GenScannerFields C15.Classify15 C15.Model15 C15.Proofs15 C15.Pool15 C15.ProofsPool15.
+From XV Require Import Gen.GenScannerFields C15.Classify15 C15.Model15 C15.Proofs15 C15.Pool15 C15.ProofsPool15 C15.DocPool15.
 Import ListNotations.
 Local Open Scope string_scope.
 
@@ -64,7 +64,7 @@ Print Assumptions T15_model_predicts_same.
     fSkipDTDValidation = fSkipDTDValidation && fDoSchema  makes the setting depend on the history *)
 Definition inv_f21 : inventory := [f21_row; ("XMLScanner", "fDoSchema", RNo)].
 Theorem T15_skipdtd_refuted :
-  diff_members "IGXMLScanner" inv_f21 init0 (f21_history docinfo {| d_id := 0; d_version := 0 |}) = ["fSkipDTDValidation"].
+  diff_members "IGXMLScanner" inv_f21 init0 (f21_history docinfo {| d_id := 0; d_version := 0; d_undecl := false |}) = ["fSkipDTDValidation"].
 Proof. vm_compute. reflexivity. Qed.
 Print Assumptions T15_skipdtd_refuted.
 
@@ -127,3 +127,33 @@ Example T15_lookup_order :
   fst (res_get s 7) = Some 2 /\ fst (res_get (prun [RReset] s) 7) = Some 1 /\
   fst (res_get (prun [RReset; RUseCached false] s) 7) = None.
 Proof. vm_compute. repeat split. Qed.
+
+(** ------------------------------------------------------------------------------------------------
+    document ownership pool of the DOM parsers and progressive-scan tokens (model: DocPool15.v) *)
+Local Close Scope N_scope.
+
+(** T15_adopted: a document returned by adoptDocument is never released by the parser and never enters the
+    parser-owned document vector, whatever sequence of parse / resetDocumentPool / adoptDocument follows *)
+Theorem T15_adopted : forall ops d, In d (adopted (drun ops dinit)) ->
+  ~ In d (freed (drun ops dinit)) /\ ~ In d (vec (drun ops dinit)).
+Proof. exact adopted_safe. Qed.
+Print Assumptions T15_adopted.
+
+Theorem T15_adopted_stays : forall ops s d, In d (adopted s) -> In d (adopted (drun ops s)).
+Proof. exact adopted_mono. Qed.
+Print Assumptions T15_adopted_stays.
+
+Example T15_adopted_nonvacuous :
+  let s := drun [DParse; DParse; DAdopt; DParse; DResetPool; DParse; DResetPool] dinit in
+  adopted s = [1] /\ freed s = [3; 0; 2].
+Proof. vm_compute. split; reflexivity. Qed.
+
+(** T15_token: a progressive-scan token is accepted iff no scanFirst / scanDocument / scanReset of the issuing scanner
+    happened since it was issued; a token of another scanner is never accepted *)
+Theorem T15_token : forall s ops, legal (fold_left tstep ops s) (issue s) = true <-> ops = [].
+Proof. exact token_legal_iff. Qed.
+Print Assumptions T15_token.
+
+Theorem T15_token_other_scanner : forall s s', scanner_id s <> scanner_id s' -> legal s' (issue s) = false.
+Proof. exact token_other_scanner. Qed.
+Print Assumptions T15_token_other_scanner.
